@@ -86,11 +86,12 @@ def gen_world(rng: SimRandom) -> dict:
         'site_seed': rng.getrandbits(32),
         'step_bound': rng.pick([0.22, 0.22, 0.22, 0.45]),
         'huge': huge,
+        'site_props': rng.chance(0.3),
     }
 
 
 ROOT_MODES = ['wrapped', 'unwrapped', 'shifted', 'disp']
-EXPENSIVE = {'rdf', 'plot', 'shape', 'orientations', 'iterate'}
+EXPENSIVE = {'rdf', 'plot', 'shape', 'orientations', 'iterate', 'repr'}
 
 
 def systems_of(world: dict):
@@ -146,6 +147,10 @@ def build_root(w: dict, mode: str, idx: int):
     if idx % 2:
         md[f'extra{idx % 7}'] = idx  # roots of one system do not all have the same metadata keys
     kw = dict(species=make_species(w), lattice=L, time_step=w['time_step'], metadata=md)
+    sp_model = None
+    if w.get('site_props'):
+        sp_model = {'tag': [f'a{i}' for i in range(w['na'])], 'weight': [0.5 + i for i in range(w['na'])]}
+        kw['site_properties'] = {k: list(v) for k, v in sp_model.items()}
     if mode == 'wrapped':
         T = Trajectory(coords=np.mod(unwrapped, 1.0), **kw)
     elif mode == 'unwrapped':
@@ -161,7 +166,7 @@ def build_root(w: dict, mode: str, idx: int):
         raise HarnessError(mode)
     if mode == 'disp_nobase':
         return T, {'S': steps.copy(), 'P': np.mod(unwrapped, 1.0), 'species': [str(s) for s in kw['species']], 'symbols': list(w['species']),
-                   'lattice': np.array(L.matrix), 'time_step': w['time_step'], 'metadata': dict(md), 'idx': idx}
+                   'lattice': np.array(L.matrix), 'time_step': w['time_step'], 'metadata': dict(md), 'idx': idx, 'site_props': sp_model}
     model = {
         'B': np.array(T.base_positions, dtype=float, copy=True),
         'P': np.mod(unwrapped, 1.0),
@@ -170,6 +175,7 @@ def build_root(w: dict, mode: str, idx: int):
         'lattice': np.array(L.matrix),
         'time_step': w['time_step'],
         'metadata': dict(md),
+        'site_props': sp_model,  # constant per-atom properties (dict of lists), None, or 'any' (not pinned down for this object)
     }
     return T, model
 
@@ -210,8 +216,11 @@ def twin_of(model: dict, w: dict):
     # exactly wrapped model positions plus an integer image offset per atom
     K = np.round(np.asarray(model['B'], dtype=float) - P[0])
     coords = P + K[None, :, :]
+    extra = {}
+    if isinstance(model.get('site_props'), dict):
+        extra['site_properties'] = {k: list(v) for k, v in model['site_props'].items()}
     return Trajectory(species=sp, coords=coords, lattice=Lattice(model['lattice']), time_step=model['time_step'],
-                      metadata=dict(model['metadata']))
+                      metadata=dict(model['metadata']), **extra)
 
 
 def ambiguous_steps(model: dict) -> bool:
@@ -245,7 +254,7 @@ def circ_max(a, b) -> float:
 # generation
 
 PERTURB = ('to_positions', 'to_displacements', 'read_positions', 'read_displacements')
-EXTRA_QUERIES = ('shape', 'orientations', 'plot')  # judged by outcome kind + data integrity afterwards (+ values for shape/orientations)
+EXTRA_QUERIES = ('shape', 'orientations', 'plot', 'repr', 'iter_partial')  # judged by outcome kind + data integrity afterwards (+ values for shape/orientations)
 PLOTS = ('plot_displacement_per_atom', 'plot_displacement_per_element', 'plot_msd_per_element', 'plot_displacement_histogram',
          'plot_frequency_vs_occurence', 'plot_vibrational_amplitudes')
 QUERIES = (
@@ -310,7 +319,7 @@ def generate(run_seed: int, tier: str = 'quick', stream: str = 'seq') -> dict:
                 op['s2'] = rng.randrange(3)
                 op['res'] = rng.pick([0.137, 0.25])
             elif q in ('get_structure',):
-                op['i'] = rint(-nf, nf - 1)
+                op['i'] = rint(-nf, nf - 1) if rng.chance(0.65) else rng.pick([0, 0, -1])
             elif q in ('tracer_diffusivity', 'haven_ratio'):
                 op['dim'] = rng.pick([1, 2, 3])
             elif q in ('drift_fixed', 'drift_floating'):
@@ -402,6 +411,7 @@ class Run:
         self.step = -1
         self.pool: dict = {}
         self.held: list = []  # Transitions objects kept by clients
+        self.held_iters: list = []  # suspended frame iterators kept by clients
         self.oracle_checks = 0
         self.last3: list = []
 
@@ -445,6 +455,15 @@ class Run:
             self.violation('time_step_changed', f'{e.name} ({why}): time_step {T.time_step} != {M["time_step"]}', sig)
         if dict(T.metadata) != M['metadata']:
             self.violation('metadata_changed', f'{e.name} ({why}): metadata {T.metadata} != {M["metadata"]}', sig)
+        want = M.get('site_props')
+        if want != 'any':
+            have = T.site_properties
+            if isinstance(have, (list, tuple)) and len(have) and all(h == have[0] for h in have):
+                have = have[0]  # per-frame list of one and the same dict
+            ok = (have is None and want is None) or (isinstance(have, dict) and isinstance(want, dict)
+                                                     and {k: list(v) for k, v in have.items()} == {k: list(v) for k, v in want.items()})
+            if not ok:
+                self.violation('site_properties_changed', f'{e.name} ({why}): per-atom site properties {have} != {want}', sig)
         pos = raw_positions(T)
         if pos.shape != M['P'].shape:
             self.violation('positions_changed', f'{e.name} ({why}): positions shape {pos.shape} != {M["P"].shape}', sig)
@@ -593,7 +612,8 @@ class Run:
             sel = {'str': syms[0], 'list': list(syms), 'tuple': tuple(syms), 'set': set(syms)}[op['sel']]
             if op['sel'] == 'str':
                 mask = [s == syms[0] for s in M['symbols']]
-            m2 = dict(M, P=M['P'][:, mask], species=[s for s, k in zip(M['species'], mask) if k], symbols=[s for s, k in zip(M['symbols'], mask) if k])
+            m2 = dict(M, P=M['P'][:, mask], species=[s for s, k in zip(M['species'], mask) if k], symbols=[s for s, k in zip(M['symbols'], mask) if k],
+                      site_props='any')  # whether a selection carries (selected) site properties along is not pinned down
             return m2, sel
         if how == 'slice':
             a, b, c = op['slice']
@@ -721,7 +741,7 @@ class Run:
                 self.violation('query_outcome_depends_on_history', f'{fn}({kw}) on {e.name}: raised {exc}, pristine twin raised {ref_exc}', {'q': fn})
             if exc is None:
                 M2 = dict(e.M, P=refP, species=[str(s) for s in ref.species], symbols=(['X'] if how == 'center_of_mass' else e.M['symbols']),
-                          B_expected=np.array(ref.base_positions, dtype=float))
+                          B_expected=np.array(ref.base_positions, dtype=float), site_props='any')
                 self.add_entry(name, new, M2, e, how)
         elif how == 'hold_transitions':
             if not has_real_species:
@@ -733,7 +753,7 @@ class Run:
             self.held.append({'tr': tr, 'states': array_fp(tr.states), 'events': array_fp(tr.events.to_numpy()), 'step': self.step})
             # its diff_trajectory is a derived trajectory (filter done internally)
             mask = [s == self.sym(0) for s in e.M['symbols']]
-            M2 = dict(e.M, P=e.M['P'][:, mask], species=[s for s, k in zip(e.M['species'], mask) if k], symbols=[s for s, k in zip(e.M['symbols'], mask) if k])
+            M2 = dict(e.M, P=e.M['P'][:, mask], species=[s for s, k in zip(e.M['species'], mask) if k], symbols=[s for s, k in zip(e.M['symbols'], mask) if k], site_props='any')
             self.add_entry(name, tr.diff_trajectory, M2, e, 'transitions.diff_trajectory')
             if tr.trajectory is not T:
                 self.violation('held_analysis_changed', 'Transitions.trajectory is not the trajectory it was computed from', {})
@@ -751,7 +771,11 @@ class Run:
         self.cur = a.sys
         if a.M['species'] != b.M['species'] or a.M['time_step'] != b.M['time_step'] or len(a.M['P']) + len(b.M['P']) > 700:
             return self.trace.log(ev='EXTEND', step=self.step, skipped='incompatible')
-        if a.T.site_properties is not None or a.T.frame_properties is not None:
+        pa, pb = a.T.site_properties, b.T.site_properties
+        same_props = (pa is None and pb is None) or (isinstance(pa, dict) and isinstance(pb, dict) and pa == pb)
+        if a.T.frame_properties is not None or not same_props:
+            # (pymatgen's extend() of a trajectory without site properties by one with them yields an object that can no longer be
+            # sliced - an upstream limitation, not exercised here; equal constant properties and none at all are)
             return self.trace.log(ev='EXTEND', step=self.step, skipped='props')
         ba, bb = bool(a.T.coords_are_displacement), bool(b.T.coords_are_displacement)
         try:
@@ -788,6 +812,8 @@ class Run:
 
         if op.get('held') and self.held:
             self.held.pop(0)
+        if op.get('held') and self.held_iters:
+            self.held_iters.pop(0)  # the suspended generator is finalised here (or at the next collection)
         e = self.pool.get(op['obj'])
         n_traj = sum(1 for x in self.pool.values() if x.kind == 'traj')
         if e is not None and n_traj > 1:
@@ -874,6 +900,14 @@ class Run:
         if q == 'plot':
             fig = getattr(T, PLOTS[op.get('which', 0) % len(PLOTS)])()
             return np.array([len(fig.data)])
+        if q == 'repr':
+            return np.frombuffer(repr(T).encode(), dtype=np.uint8).astype(float)
+        if q == 'iter_partial':
+            it = iter(T)
+            first = next(it)
+            if T is not getattr(self, '_twin_in_use', None):
+                self.held_iters.append(it)  # a client keeps the suspended iterator around
+            return np.asarray(first.frac_coords)
         raise HarnessError(q)
 
     def tolerance(self, q, M):
@@ -881,7 +915,7 @@ class Run:
         return {
             'cumulative_displacements': (0, 1e-9), 'distances_from_base_position': (0, 1e-9 * amax), 'mean_squared_displacement': (1e-9, 1e-8 * amax * amax),
             'drift': (0, 1e-9), 'drift_fixed': (0, 1e-9), 'drift_floating': (0, 1e-9), 'get_lattice': (0, 1e-12), 'total_time': (1e-12, 0), 'speed': (0, 1e-9 * amax),
-            'particle_density': (1e-12, 0), 'get_structure': (0, 1e-9), 'len_species': (0, 0), 'center_of_mass_q': (0, 1e-9), 'iterate': (0, 1e-9), 'orientations': (1e-7, 1e-8),
+            'particle_density': (1e-12, 0), 'get_structure': (0, 1e-9), 'len_species': (0, 0), 'repr': (0, 0), 'iter_partial': (0, 1e-9), 'center_of_mass_q': (0, 1e-9), 'iterate': (0, 1e-9), 'orientations': (1e-7, 1e-8),
         }.get(q, (1e-6, 0.0))
 
     def op_query(self, op):
@@ -893,7 +927,7 @@ class Run:
         self.cur = e.sys
         q = op['q']
         M = e.M
-        if 'X' in M['symbols'] and q in ('drift_fixed', 'drift_floating', 'transitions', 'rdf', 'haven_ratio', 'center_of_mass_q', 'shape', 'orientations', 'plot'):
+        if 'X' in M['symbols'] and q in ('drift_fixed', 'drift_floating', 'transitions', 'rdf', 'haven_ratio', 'center_of_mass_q', 'shape', 'orientations', 'plot', 'repr'):
             return self.trace.log(ev='QUERY', step=self.step, q=q, skipped='dummy species')
         if q == 'haven_ratio' and not e.amb:
             try:
@@ -913,6 +947,7 @@ class Run:
         T = e.T
         before = bool(T.coords_are_displacement)
         twin = twin_of(M, self.w)
+        self._twin_in_use = twin
         try:
             ref = self.run_query(twin, op, M)
             ref_exc = None
@@ -1039,7 +1074,7 @@ class Run:
             if q == 'haven_ratio' and (not np.all(np.isfinite(ref)) or abs(float(ref[0])) > 1e12):
                 self.stats.relax('haven_ratio_degenerate')
                 return None
-        if q in ('get_structure', 'center_of_mass_q', 'iterate'):
+        if q in ('get_structure', 'center_of_mass_q', 'iterate', 'iter_partial'):
             d = circ_max(got, ref)
             return None if d <= 1e-9 else f'max circular difference {d:.3g}'
         rtol, atol = self.tolerance(q, M)
@@ -1133,6 +1168,12 @@ class Run:
                 self.check_all(f'non-interference after step {i}')
         self.step = len(self.sc['ops'])
         self.check_all('final')
+        # every client lets go of its suspended iterators; finalising a generator must not touch the trajectories
+        import gc
+
+        self.held_iters.clear()
+        gc.collect()
+        self.check_all('after dropping suspended iterators')
         # finally the public API view of every object
         for e in list(self.pool.values()):
             if e.kind == 'traj':
